@@ -12,6 +12,8 @@ mod keys;
 mod table;
 mod tables;
 mod engine;
+mod fen;
+mod ucifam;
 
 fn main() {
     let args: Vec<String> = env::args().collect();
@@ -26,6 +28,8 @@ fn main() {
         "table" => table::run(rest),
         "tables" => tables::run(rest),
         "engine" => engine::run(rest),
+        "fen" => fen::run(rest),
+        "uci" => ucifam::run(rest),
         other => {
             eprintln!("unknown family {}", other);
             2
